@@ -151,7 +151,15 @@ fn run_actions(actions: &[String]) -> ! {
                 log_line(&format!("wrote {} {} tag={}", f[1], len, tag));
             }
             "sleep" => { let ms: u64 = f[1].parse().unwrap_or(0); let end = now_ns() + ms as u128 * 1_000_000; while now_ns() < end { unsafe { usleep(((end - now_ns()).min(50_000_000) / 1000) as u32) }; } }
-            "hang" => loop { unsafe { usleep(200_000) }; },
+            // work:<ms>: like sleep, but counts *running* time: a gap (the process was stopped) is logged and not counted
+            "work" => {
+                let ms: u64 = f[1].parse().unwrap_or(0); let mut acc: u128 = 0; let want = ms as u128 * 1_000_000;
+                while acc < want {
+                    let t0 = now_ns(); unsafe { usleep(2_000) }; let dt = now_ns() - t0;
+                    if dt > 60_000_000 { raw_log(b"gap", dt / 1_000_000); acc += 2_000_000; } else { acc += dt; }
+                }
+            }
+            "hang" => loop { let t0 = now_ns(); unsafe { usleep(20_000) }; let dt = now_ns() - t0; if dt > 80_000_000 { raw_log(b"gap", dt / 1_000_000); } },
             "exit" => { let c: i32 = f[1].parse().unwrap_or(1); raw_log(b"end-exit", c as u128); let _ = std::io::stdout().flush(); unsafe { _exit(c) } }
             "kill" => { let s: i32 = f[1].parse().unwrap_or(9); raw_log(b"end-signal", s as u128); unsafe { signal(s, 0); raise(s); usleep(100_000); _exit(99) } }
             "ignore" => { let s: usize = f[1].parse().unwrap_or(15); unsafe { SIG_MODE[s] = 1; signal(s as i32, on_signal as *const () as usize); } }
